@@ -281,6 +281,23 @@ var rR21 = RuleRef{Name: "R21", Doc: "lazy expiry: every keyspace access that ob
 					out = append(out, site{fn, ci, a.Key, con})
 					continue
 				}
+				// a function-typed parameter being called: the closures bound to it at the call sites of fn
+				if prm, ok := ci.Common().Value.(*ssa.Parameter); ok && callee(ci) == nil {
+					fab, _ := c.funcArgBindings()
+					for _, g := range fab[prm] {
+						for _, pi := range t.pre[g] {
+							if pi < len(ci.Common().Args) {
+								k := ci.Common().Args[pi]
+								con := "call of the function argument " + prm.Name() + "(" + canon(k) + "), which observes its key"
+								ord[con]++
+								if ord[con] > 1 {
+									con = fmt.Sprintf("%s#%d", con, ord[con])
+								}
+								out = append(out, site{fn, ci, k, con})
+							}
+						}
+					}
+				}
 				if cf := callee(ci); cf != nil {
 					for _, pi := range t.pre[cf] {
 						if pi < len(ci.Common().Args) {
@@ -301,8 +318,9 @@ var rR21 = RuleRef{Name: "R21", Doc: "lazy expiry: every keyspace access that ob
 	// preconditions of helpers (key is a parameter), to fixpoint
 	for iter := 0; iter < 4; iter++ {
 		changed := false
+		_, argOnly := c.funcArgBindings()
 		for _, fn := range fns {
-			if execs[fn] || fn.Parent() != nil || fn == t.checkTTL {
+			if execs[fn] || (fn.Parent() != nil && !argOnly[fn]) || fn == t.checkTTL {
 				continue
 			}
 			var ps []int
@@ -331,7 +349,8 @@ var rR21 = RuleRef{Name: "R21", Doc: "lazy expiry: every keyspace access that ob
 		}
 		for _, s := range collect(fn) {
 			ok, detail := t.checked(fn, s.in, s.key)
-			if !ok && !execs[fn] && fn.Parent() == nil && paramIndex(fn, canon(s.key)) >= 0 {
+			_, argOnly := c.funcArgBindings()
+			if !ok && !execs[fn] && (fn.Parent() == nil || argOnly[fn]) && paramIndex(fn, canon(s.key)) >= 0 {
 				c.Add("R21", fnName(fn), s.con, s.in.Pos(), true, "precondition on callers (checked at every call site)")
 				n++
 				continue
